@@ -506,8 +506,12 @@ def parseLeader(raw, eols=(CRLF, LF), kind="leader header line", headers=None):
         del raw[:index] # remove used bytes
         if line:
             line = line.decode('iso-8859-1')  # convert to unicode string
-            key, value = line.split(': ', 1)
-            headers[key] = value
+            # header-field = field-name ":" OWS field-value OWS  (RFC7230 3.2)
+            key, sep, value = line.partition(':')
+            if not sep:
+                raise HTTPException("Invalid header line '{0}' while parsing "
+                                    "{1}".format(line, kind))
+            headers[key] = value.strip(' \t')
 
         if len(headers) > MAX_HEADERS:
             raise HTTPException("Too many headers, more than {0}".format(MAX_HEADERS))
